@@ -35,6 +35,21 @@ CHECKS = {
             "DESIGN.md 6/C16",
             "Generated insertion sequences mixing hints, all algorithms and levels, with and without the dedup adder; the independent decoder locates every content on disk: hint No / uncompressed pack => cluster nibble 0 and the bytes verbatim in the file; hint Yes in a compressing pack => cluster nibble of the pack's algorithm and a payload that the algorithm's own library decodes to the content; dedup adder => same address iff same bytes, one stored content per distinct byte string.",
             "Trusts the independent decoder (no jubako code) and the lz4/xz2/zstd crates; Detect is only required to round-trip."),
+    "C10": ("E1-proptest", "exploration",
+            "property-based testing (proptest): metamorphic relation over packagings/concat orders/prefixes + reference model",
+            "DESIGN.md 6/C10",
+            "One generated logical container (contents, up to 2 extra packs, linked directory) is produced in the three packagings and transformed: concat of the separate files in every order (all permutations, 24 sampled beyond 4 files), concat of concats, a one-file container behind 1..8192 foreign bytes (random, text, ELF, 'jbk' look-alike), and a concat placed next to a damaged copy at the recorded location. Every form must open, equal the model entry by entry and byte by byte, and verify.",
+            "Trusts proptest and the harness model. A prefix that is itself a complete valid Jubako pack is excluded (the reader rightly finds that pack first)."),
+    "C11": ("E1-proptest", "exploration",
+            "property-based testing (proptest) with exhaustive enumeration of unavailable subsets x kinds per container",
+            "DESIGN.md 6/C11",
+            "For generated containers with 1-3 separately stored content packs, every non-empty subset of them is made unavailable in each of four ways (deleted, directory, foreign valid container, foreign valid bare pack; plus a mixed assignment). The container must open, all entries and all contents of available packs equal the model, contents of unavailable packs answer MISSING with the manifest's pack id/uuid/location (taken from the independent decoder), get_pack beyond the max id is None, check() is true.",
+            "Trusts proptest, the harness model and the independent decoder for the manifest facts. Only the kinds of unavailability the property names are generated (a garbage file at the location is C06 territory)."),
+    "C12": ("E1-proptest", "exploration",
+            "stateful property-based testing (proptest): generated rewrite histories vs. model map + byte diff + independent decoder",
+            "DESIGN.md 6/C12",
+            "Generated histories of set_location (listed or unknown pack; empty, ASCII and multi-byte UTF-8 locations up to exactly 213 bytes, restore) and reopen are applied to manifests standalone or inside container files at small and large offsets; after every step the return value, the byte diff against the previous file (only bytes 38..256 of that pack info may change), the library's view of all pack infos, ManifestPack::check, ContainerPack::check, the independent decoder's CRC/blake3 verification and, when the directory pack is reachable, the full container content are compared with the model.",
+            "Trusts proptest, the model map and the independent decoder. Locations longer than 213 bytes are inadmissible and not generated. Container-level reads are only asserted while the directory pack is reachable."),
 }
 
 NOT_YET = {
